@@ -162,9 +162,16 @@ def stream_unpack(rnd, env, st, n, op='UNPACK'):
         elif r < 0.85:
             o = casegen.Opts(rnd, shuffle=True, pad=True, repack=True, split=True, stale=True, unknown=True)
             bs = casegen.corrupt(rnd, casegen.encode(env, m, o if rnd.random() < 0.5 else casegen.CANON)); k = 'corrupted'
-        elif r < 0.92:
+        elif r < 0.90:
             o = casegen.Opts(rnd, shuffle=rnd.random() < 0.3, lead_unknown=rnd.random() < 0.5, bad_later=True)
             bs = casegen.encode(env, m, o); k = 'rejected-later-occurrence' if o.bad_done else 'leading-unknown'
+        elif r < 0.95:
+            # nearly valid: one required field left out of every message of one type, half of the time behind a leading unknown field
+            reqs = [(md.idx, f.id) for md in env.msgs for f in md.fields if f.label == 'REQ' and f.default is None]
+            own = [q for q in reqs if q[0] == d and q[1] == env.msgs[d].fields[0].id]
+            drop = rnd.choice(own if own and rnd.random() < 0.5 else reqs) if reqs else None
+            o = casegen.Opts(rnd, shuffle=rnd.random() < 0.3, lead_unknown=rnd.random() < 0.6, drop=drop)
+            bs = casegen.encode(env, m, o); k = 'required-dropped' if drop else 'leading-unknown'
         else:
             bs = [rnd.randint(0, 255) for _ in range(rnd.randint(0, 40))]; k = 'random'
         l = '%s %d %s' % (op, d, casegen.hexs(bs))
